@@ -15,6 +15,7 @@
 //                                     lockstep: stop at ptc evaluation evals+1 (= after `evals` RRT iterations)
 //    mode run|lockstep                lockstep: RRT with NearestNeighborsLinear, recording sampler + goal, tree dump
 //    trace <0|1>                      print every recorded validity query
+//    watchdog <seconds>               re-arm the watchdog alarm (kills a hung run; never influences an answer)
 //    go
 //
 // output: see the `std::cout <<` lines of report(); every line starts with a keyword.  The harness reports OMPL's own
@@ -568,7 +569,7 @@ static int runOnce(const Config &c)
 
 int main()
 {
-    alarm(240);  // watchdog only: kills the process, never influences an answer
+    alarm(240);  // watchdog only: kills the process, never influences an answer (`watchdog <s>` re-arms it)
     std::string line;
     if (!vp::readLine(line))
         return 2;
@@ -629,6 +630,8 @@ int main()
             c.mode = rest[0];
         else if (op == "trace" && rest.size() == 1 && (rest[0] == "0" || rest[0] == "1"))
             c.trace = rest[0] == "1";
+        else if (op == "watchdog" && rest.size() == 1 && vp::parseNat(rest[0]))
+            alarm((unsigned)*vp::parseNat(rest[0]));
         else if (op == "go" && rest.empty())
         {
             go = true;
